@@ -15,10 +15,10 @@ from sx import Str, Sym
 
 PROP = "C05"
 PROP_FILE = "C05_RoundTrip"
-THEOREMS = ['c05_escape', 'c05_escape_pattern', 'c05_escape_relex', 'c05_escape_pattern_relex', 'c05_expr_roundtrip_partial', 'c05_expr_roundtrip_rest_partial']
+THEOREMS = ['c05_escape', 'c05_escape_pattern', 'c05_escape_relex', 'c05_escape_pattern_relex', 'c05_expr_roundtrip', 'c05_expr_roundtrip_rest', 'c05_meaning']
 
 MANIFEST = {
-    "text": "Round trip text -> AST -> text -> AST checked on the implementation for generated expressions, policies, templates and policy sets (ASTs rendered with minimal / full / redundant parentheses, random whitespace and comments; exhaustive constructor-pair nesting table; unary minus and i64 boundary texts; call styles of every extension function; reserved words; escape forms; mutated texts). Gallina models of escape/unescape/patterns, of the printer (text and tokens), of the lexer and of the expression parser with the cst_to_ast lowering are compared with the implementation on every case (escaped strings, printed text, accept/reject and AST of every accepted and rejected expression text). Proved for all inputs: unescape . escape = id (strings, patterns, any Unicode tables), printed quoted text re-lexes as one token, and parse(print_toks e) = e on token lists for the fragment Printable.in_fragment (all operators incl. left-associative chains, if, attribute chains, has/like/is, literals; method/extension calls, sets and records excluded).",
+    "text": "Round trip text -> AST -> text -> AST checked on the implementation for generated expressions, policies, templates and policy sets (ASTs rendered with minimal / full / redundant parentheses, random whitespace and comments; exhaustive constructor-pair nesting table; unary minus and i64 boundary texts; call styles of every extension function; reserved words; escape forms; mutated texts). Gallina models of escape/unescape/patterns, of the printer (text and tokens), of the lexer and of the expression parser with the cst_to_ast lowering are compared with the implementation on every case (escaped strings, printed text, accept/reject and AST of every accepted and rejected expression text). Proved for all inputs: unescape . escape = id (strings, patterns, any Unicode tables), printed quoted text re-lexes as one token, parse(print_toks e) = e on token lists for EVERY printable expression (c05_expr_roundtrip), and the corollary that printing never changes the evaluation result (c05_meaning). A policy-level parser model (annotations, effect, scope constraints with slots, when/unless folding) is compared with the implementation on every policy / template / set text.",
     "technique": "proof (Coq, induction with one lemma per grammar level) + correspondence by differential execution + implementation-level round-trip oracle",
 }
 
